@@ -49,7 +49,7 @@ func (Engine) Describe(prop string) core.Description {
 			"only 'differs => not equal' is demanded of Equal/EqualStrict, never the converse; 'differs' means a different type name, field-name set, canonical field value (to-many as sets) or ID",
 			"struct-backed types are reflect.StructOf types without methods",
 		}
-		d.Probes = []string{"set-untyped-nil", "set-typed-nil", "set-nil-list", "set-id", "equal-pair-renamed-field", "equal-pair-renamed-type", "equal-pair-value", "equal-pair-id", "equal-cross-impl"}
+		d.Probes = []string{"set-untyped-nil", "set-typed-nil", "set-nil-list", "set-id", "equal-pair-renamed-field", "equal-pair-renamed-type", "equal-pair-value", "equal-pair-id", "equal-cross-impl", "re-added-removed-field"}
 	case "C18":
 		d.Rule = "one run = one generated resource (soft or wrapped, to-many lists and byte strings biased non-empty), a Copy / New / Type.Copy of it, then 1..20 mutations each applied to one side chosen per step (Set, type edits, MarshalResource with all relationship data, Filter '=' on a to-many, writes through slices obtained from Get) while the other side's full observation is compared with its snapshot from just before the step; " +
 			"non-trivial = at least 2 mutations of which one goes through a shared-state candidate (slice write, marshal, filter, type edit); distinct = distinct event-log hash"
@@ -57,7 +57,7 @@ func (Engine) Describe(prop string) core.Description {
 			"pointees of nullable scalar attributes are not mutated (the statement lists slices only)",
 			"immediately after Copy, source and copy must agree on type name, field definitions, ID and every value (nil/empty equivalences as in C17)",
 		}
-		d.Probes = []string{"mutate-slice-write-ids", "mutate-slice-write-bytes", "mutate-slice-write-ptr-bytes", "mutate-marshal", "mutate-filter", "mutate-type-edit", "mutate-set", "copy-of-wrapped", "copy-of-soft", "new-of-wrapped", "new-of-soft", "type-copy", "copy-of-copy"}
+		d.Probes = []string{"mutate-slice-write-ids", "mutate-slice-write-bytes", "mutate-slice-write-ptr-bytes", "mutate-marshal", "mutate-filter", "mutate-type-edit", "mutate-set", "copy-of-wrapped", "copy-of-soft", "new-of-wrapped", "new-of-soft", "type-copy", "copy-of-copy", "mutate-type-edit-via-GetType"}
 	}
 
 	return d
@@ -105,6 +105,10 @@ type twin struct {
 
 func runC17(t *core.Tape, st *core.Stats) *core.Violation {
 	const P = "C17"
+
+	if t.Bool(1, 5) {
+		return runC17Soft(t, st)
+	}
 
 	ts := drawType(t, 1)
 	t.Logf("%s", ts.Describe())
@@ -168,6 +172,7 @@ func runC17(t *core.Tape, st *core.Stats) *core.Violation {
 	nset := 0
 	maxOps := t.Bound(40, 100)
 	stop := t.Range(3, maxOps)
+	readEvery := []int{1, 1, 1, 2, 4}[t.Draw(5)]
 
 	for i := 0; i < maxOps && t.More(stop); i++ {
 		var (
@@ -181,6 +186,10 @@ func runC17(t *core.Tape, st *core.Stats) *core.Violation {
 		switch k := t.Draw(nf + 1); {
 		case k == nf:
 			field, val = "id", world.DrawID(t)
+			if t.Bool(1, 6) {
+				val = "" // an empty ID is a string like any other
+			}
+
 			model.ID = val.(string)
 			desc = "id"
 
@@ -223,11 +232,19 @@ func runC17(t *core.Tape, st *core.Stats) *core.Violation {
 
 		nset++
 
+		if nset%readEvery != 0 {
+			continue
+		}
+
 		if v := check(fmt.Sprintf("after Set(%q, %s)", field, world.Show(val))); v != nil {
 			return v
 		}
 
 		st.State(core.HashString(model.Describe()))
+	}
+
+	if v := check("at the end of the history"); v != nil {
+		return v
 	}
 
 	// Equality helpers on pairs derived from the history.
@@ -281,4 +298,194 @@ func diffClass(ts *world.TypeSpec, model *world.ResSpec, r jsonapi.Resource) str
 	}
 
 	return cls
+}
+
+// runC17Soft: a soft resource whose type is edited between Set calls
+// (RemoveField, AddAttr, AddRel — also re-adding a removed name, possibly with
+// another kind) and that is read back only now and then, so that values kept
+// for removed fields are not cleaned up by the checker's own reads.
+func runC17Soft(t *core.Tape, st *core.Stats) *core.Violation {
+	const P = "C17"
+
+	orig := drawType(t, 1)
+	ts := cloneType(orig)
+	ts.Struct = false
+	t.Logf("%s (soft only, type edits)", ts.Describe())
+
+	var (
+		softT jsonapi.Type
+		err   error
+		soft  jsonapi.Resource
+	)
+
+	if p := core.Call(func() {
+		softT, err = ts.SoftType()
+		if err == nil {
+			soft = softT.New()
+		}
+	}); p != nil {
+		return viol(P, "no-panic", p.Func, "build-type:"+p.Class, "building type %s panicked: %s", ts.Describe(), p.Value)
+	}
+
+	if err != nil {
+		st.Inc("probe:type-refused")
+		return nil
+	}
+
+	sr, ok := soft.(*jsonapi.SoftResource)
+	if !ok {
+		return viol(P, "fresh-resource", "Type.New", "soft", "Type.New of a type without NewFunc returned %T, not a *SoftResource", soft)
+	}
+
+	model := world.NewResSpec(ts)
+	every := []int{1, 2, 3, 5}[t.Draw(4)]
+	removed := []string{}
+	nset, nedit := 0, 0
+
+	check := func(when string) *core.Violation {
+		want := model.ExpectedObservation(false)
+
+		var got string
+
+		if p := core.Call(func() { got = world.Observe(sr).String(false) }); p != nil {
+			return viol(P, "no-panic", p.Func, "read:"+p.Class, "reading the soft resource %s panicked: %s", when, p.Value)
+		}
+
+		if got != want {
+			t.Logf("  model: %s", want)
+			t.Logf("  soft:  %s", got)
+
+			return viol(P, "read-back", "soft", "after-type-edit", "soft resource differs from the model %s\n    model: %s\n    soft:  %s", when, want, got)
+		}
+
+		return nil
+	}
+
+	maxOps := t.Bound(30, 80)
+	stop := t.Range(3, maxOps)
+	last := "when freshly created"
+
+	for i := 0; i < maxOps && t.More(stop); i++ {
+		nf := len(ts.Attrs) + len(ts.Rels)
+
+		switch op := t.Draw(10); {
+		case op < 4 && nf > 0: // Set
+			k := t.Draw(nf)
+
+			var (
+				field string
+				val   interface{}
+			)
+
+			if k < len(ts.Attrs) {
+				a := ts.Attrs[k]
+				field, val = a.Name, world.DrawValue(t, a.Kind, a.Nullable, true)
+			} else {
+				r := ts.Rels[k-len(ts.Attrs)]
+				field, val = r.Name, world.DrawRelValue(t, r.ToOne)
+			}
+
+			model.Vals[field] = world.CloneValue(val)
+			last = fmt.Sprintf("after Set(%q, %s)", field, world.Show(val))
+			arg := world.CloneValue(val)
+
+			if p := core.Call(func() { sr.Set(field, arg) }); p != nil {
+				return viol(P, "no-panic", p.Func, "set:"+p.Class, "Set(%q, %s) panicked: %s", field, world.Show(val), p.Value)
+			}
+
+			nset++
+			st.Inc("op:Set")
+		case op < 6 && nf > 0: // RemoveField
+			k := t.Draw(nf)
+
+			var name string
+
+			if k < len(ts.Attrs) {
+				name = ts.Attrs[k].Name
+				ts.Attrs = append(ts.Attrs[:k:k], ts.Attrs[k+1:]...)
+			} else {
+				k -= len(ts.Attrs)
+				name = ts.Rels[k].Name
+				ts.Rels = append(ts.Rels[:k:k], ts.Rels[k+1:]...)
+			}
+
+			delete(model.Vals, name)
+			removed = append(removed, name)
+			last = fmt.Sprintf("after RemoveField(%q)", name)
+
+			if p := core.Call(func() { sr.RemoveField(name) }); p != nil {
+				return viol(P, "no-panic", p.Func, "remove-field:"+p.Class, "RemoveField(%q) panicked: %s", name, p.Value)
+			}
+
+			nedit++
+			st.Inc("op:RemoveField")
+		case op < 9: // AddAttr / AddRel, preferably re-using a removed name
+			name := fmt.Sprintf("n%d", t.Draw(4))
+			if len(removed) > 0 && t.Bool(2, 3) {
+				name = removed[t.Draw(len(removed))]
+				st.Inc("probe:re-added-removed-field")
+			}
+
+			exists := ts.Attr(name) != nil || ts.Rel(name) != nil
+
+			if t.Bool(2, 3) {
+				a := jsonapi.Attr{Name: name, Type: t.Range(1, 14), Nullable: t.Bool(1, 2)}
+				last = fmt.Sprintf("after AddAttr(%q:%s)", name, world.KindName(a.Type, a.Nullable))
+
+				if p := core.Call(func() { sr.AddAttr(a) }); p != nil {
+					return viol(P, "no-panic", p.Func, "add-attr:"+p.Class, "AddAttr(%q) panicked: %s", name, p.Value)
+				}
+
+				if !exists {
+					ts.Attrs = append(ts.Attrs, world.AttrSpec{Name: name, Kind: a.Type, Nullable: a.Nullable})
+					model.Vals[name] = world.ZeroValue(a.Type, a.Nullable)
+				}
+			} else {
+				r := jsonapi.Rel{FromType: ts.Name, FromName: name, ToType: "other", ToOne: t.Bool(1, 2)}
+				last = fmt.Sprintf("after AddRel(%q one=%v)", name, r.ToOne)
+
+				if p := core.Call(func() { sr.AddRel(r) }); p != nil {
+					return viol(P, "no-panic", p.Func, "add-rel:"+p.Class, "AddRel(%q) panicked: %s", name, p.Value)
+				}
+
+				if !exists {
+					ts.Rels = append(ts.Rels, world.RelSpec{Name: name, ToType: "other", ToOne: r.ToOne})
+
+					if r.ToOne {
+						model.Vals[name] = ""
+					} else {
+						model.Vals[name] = []string{}
+					}
+				}
+			}
+
+			nedit++
+			st.Inc("op:AddField")
+		default: // structure-only reads must not change anything either
+			if p := core.Call(func() { _, _, _ = sr.Attrs(), sr.Rels(), sr.GetType() }); p != nil {
+				return viol(P, "no-panic", p.Func, "read-structure:"+p.Class, "Attrs/Rels/GetType panicked: %s", p.Value)
+			}
+
+			continue
+		}
+
+		t.Logf("%s", last)
+		st.Steps++
+
+		if (nset+nedit)%every == 0 {
+			if v := check(last); v != nil {
+				return v
+			}
+		}
+	}
+
+	if v := check(last + " (final read)"); v != nil {
+		return v
+	}
+
+	if nset >= 1 && nedit >= 1 {
+		st.MarkNonTrivial()
+	}
+
+	return nil
 }
